@@ -195,6 +195,9 @@ def r_segflag(ctx):
 def r_charstring(ctx):
     from rules import c11
     c11.charstring_primitive(ctx)
+    # "whitespace" is Unicode White_Space, decided by the one shared predicate (R-C11-1 re-evaluated): a predicate that also accepts U+200B or
+    # U+FEFF lets the corruption delete characters of a clean text that operations() / repair() then put back as a space
+    c11.r1(ctx)
 
 
 @rule('C14', 'R-C14-6', 'T11 SIBLING (configuration reaches the corruption in the same order)',
